@@ -365,12 +365,14 @@ func resolvePathToFieldDescriptors(
 	}
 	fields := msg.Fields()
 	result := make([]protoreflect.FieldDescriptor, strings.Count(path, ".")+1)
-	for i, remaining := 0, path; remaining != ""; i++ {
+	for i, remaining, more := 0, path, true; more; i++ {
 		part := remaining
 		if i := strings.IndexByte(remaining, '.'); i >= 0 {
 			part, remaining = remaining[:i], remaining[i+1:]
 		} else {
-			remaining = ""
+			// (a path that ends with "." has one more, empty, element: it must not be
+			// mistaken for the end of the path, which would leave a nil descriptor in result)
+			more = false
 		}
 		var field protoreflect.FieldDescriptor
 		if fromJSON {
@@ -384,7 +386,7 @@ func resolvePathToFieldDescriptors(
 			}
 		}
 		result[i] = field
-		if remaining == "" {
+		if !more {
 			break
 		}
 		if field.Cardinality() == protoreflect.Repeated {
